@@ -977,3 +977,70 @@ Definition run_lut_layout first buf off stride n item big pad xs : val :=
                      summary (ld_bytes l); vres summary (lut_data l);
                      vres (fun d => vz_list (map (lut_lookup 0 (ld_first l) d) xs)) (lut_data l)])
        (mk_lut_arr first a None pad).
+
+(* ------------------------------------------------------------------ *)
+(* 13. histories: one image object (or the datasets of one series)     *)
+(*     asked several times                                             *)
+(* ------------------------------------------------------------------ *)
+(* The stored values live in PixelData ([fst st]).  The first access of .pixel_array decodes them
+   into a cache ([snd st]: Image._pixel_array; pydicom's Dataset._pixel_array for the instances
+   handed to get_volume_from_series); from then on every read is FED FROM THE CACHE instead of
+   decoding PixelData again (image.py get_stored_frame / get_frame / get_frames /
+   _get_pixels_by_frame: `if self._pixel_array is None: ... else: frame = self.pixel_array[i]`).
+   A read returns its result and writes neither PixelData nor the cache. *)
+Inductive hop (Op : Type) := HTouch | HRead (o : Op).
+Arguments HTouch {Op}.
+Arguments HRead {Op} o.
+
+Section Hist.
+  Context {St Op R : Type}.
+  Variable read : Op -> St -> R.      (* a read, as a function of the stored values it is fed *)
+  Variable touch : St -> R.           (* what .pixel_array returns *)
+  Definition hstate := (St * option St)%type.
+  Definition hsource (st : hstate) : St := match snd st with Some a => a | None => fst st end.
+  Definition hstep (st : hstate) (h : hop Op) : hstate * R :=
+    match h with
+    | HTouch => ((fst st, Some (hsource st)), touch (hsource st))
+    | HRead o => (st, read o (hsource st))
+    end.
+  Fixpoint hrun (st : hstate) (hs : list (hop Op)) : list R * hstate :=
+    match hs with
+    | [] => ([], st)
+    | h :: t => let r := hstep st h in
+                let rest := hrun (fst r) t in (snd r :: fst rest, snd rest)
+    end.
+End Hist.
+
+(* the reads of one image object; status = only accept / reject is observed (float32) *)
+Inductive iread :=
+| IFrame (status : bool) (odt : dtype) (fi : Z)           (* get_frame(fi + 1, dtype=odt, ...) *)
+| IFrames (status : bool) (odt : dtype) (fis : list Z)    (* get_frames([...], dtype=odt, ...) *)
+| IPixels (status : bool) (odt : dtype) (fis : list Z)    (* get_volume / get_total_pixel_matrix *)
+| IStored (fi : Z).                                       (* get_stored_frame(fi + 1) *)
+
+Definition vres_or_status {A} (status : bool) (f : A -> val) (r : res A) : val :=
+  if status then vstatus r else vres f r.
+
+Definition image_read (E : Q -> Q) ds fl rsel vsel ymin ymax (o : iread) (frames : list (list Z)) : val :=
+  match o with
+  | IFrame s odt fi => vres_or_status s vq_list (get_frame E ds fl rsel vsel ymin ymax odt frames fi)
+  | IFrames s odt fis => vres_or_status s vq_list2 (get_frames E ds fl rsel vsel ymin ymax odt frames fis)
+  | IPixels s odt fis => vres_or_status s vq_list2 (get_pixels_by_frame E ds fl rsel vsel ymin ymax odt frames fis)
+  | IStored fi => vres vz_list (frame_at frames fi)
+  end.
+
+(* all reads of one history share the flags, selectors and output range of the case; the output
+   dtype and the frames asked for vary from read to read *)
+Definition run_history (tab : list (Q * Q)) ds fl rsel vsel ymin ymax frames (ops : list (hop iread)) : val :=
+  VL (fst (hrun (image_read (exp_table tab) ds fl rsel vsel ymin ymax) vz_list2 (frames, None) ops)).
+
+(* get_volume_from_series called several times on the SAME datasets (given in slice order); the
+   stored values of instance k are [nth k px]; HTouch = .pixel_array of every dataset *)
+Inductive sread := SVolume (status : bool) (odt : dtype).
+Definition series_read (E : Q -> Q) fl rsel vsel ymin ymax (dss : list dataset) (o : sread)
+           (px : list (list Z)) : val :=
+  match o with
+  | SVolume s odt => vres_or_status s vq_list2 (get_series E fl rsel vsel ymin ymax odt (combine dss px))
+  end.
+Definition run_series_history (tab : list (Q * Q)) fl rsel vsel ymin ymax dss px (ops : list (hop sread)) : val :=
+  VL (fst (hrun (series_read (exp_table tab) fl rsel vsel ymin ymax dss) vz_list2 (px, None) ops)).
